@@ -192,7 +192,7 @@ class DigestAuthRequestScheme(DigestAuthScheme):  # Authorization
 		if not qop or qop == b'auth':
 			return b'%s:%s' % (params['method'], params['uri'])
 		elif qop == b'auth-int':
-			H = cls.get_algorithm(params['algorithm'])
+			H = cls.get_algorithm(params.get('algorithm', b'MD5'))
 			return b'%s:%s:%s' % (params['method'], params['uri'], H(params['entity_body']))
 		else:  # pragma: no cover
 			raise NotImplementedError('Unknown quality of protection: %r' % (qop, ))
